@@ -109,6 +109,13 @@ RemoveNode(n) ==
   /\ CanRecord /\ n \in Dom(nodes)
   /\ IF NodeUsage(n) # {} \/ RequiredBy(n) # {} THEN Refuse("remove_node", <<n>>)
      ELSE nodes' = Drop(nodes, n) /\ UNCHANGED <<links, pats, curves, srcs, ctls>> /\ Log("remove_node", <<n>>, "ok")
+\* remove_node(with_control=True): the controls that need the node go with it - unless the removal is refused (the node is
+\* still used by a link or a source), in which case nothing changes
+RemoveNodeWithControls(n) ==
+  /\ CanRecord /\ n \in Dom(nodes)
+  /\ IF NodeUsage(n) # {} THEN Refuse("remove_node_with_controls", <<n>>)
+     ELSE /\ nodes' = Drop(nodes, n) /\ ctls' = [k \in Dom(ctls) \ RequiredBy(n) |-> ctls[k]]
+          /\ UNCHANGED <<links, pats, curves, srcs>> /\ Log("remove_node_with_controls", <<n>>, "ok")
 RemoveLink(l) ==
   /\ CanRecord /\ l \in Dom(links)
   /\ IF RequiredBy(l) # {} THEN Refuse("remove_link", <<l>>)
@@ -192,7 +199,7 @@ Next ==
   \/ \E s \in SrcNames : RemoveSource(s)
   \/ \E k \in CtlNames, l \in Dom(links), n \in {""} \cup Dom(nodes) : AddControl(k, l, n)
   \/ \E k \in CtlNames : RemoveControl(k)
-  \/ \E n \in NodeNames : RemoveNode(n)
+  \/ \E n \in NodeNames : RemoveNode(n) \/ RemoveNodeWithControls(n)
   \/ \E l \in LinkNames : RemoveLink(l)
   \/ \E l \in LinkNames, w \in {"start", "end"}, n \in Dom(nodes) : SetEnd(l, w, n)
   \/ \E l \in LinkNames, p \in pats : SetSpeedPattern(l, p)
